@@ -256,10 +256,28 @@ func c04Keep(ns NamedSkel) bool {
 	return false
 }
 
+// c04FrontEnds runs the front-end equivalence scenario and reports its disagreements under C04
+// (findings recorded for C10/C14 about tag names are theirs, not this property's).
+func c04FrontEnds(inner mc.Scenario) mc.Scenario {
+	return func(x *mc.X) *mc.Outcome {
+		out := inner(x)
+		var keep []*mc.Violation
+		for _, v := range out.Viol {
+			if strings.Contains(v.Key, ":D24:") {
+				continue
+			}
+			v.Key = "C04:front-end:" + strings.TrimPrefix(v.Key, "C14:")
+			keep = append(keep, v)
+		}
+		out.Viol = keep
+		return out
+	}
+}
+
 func init() {
 	Register(&Prop{
 		ID:    "C04",
-		Rule:  "decision table through the core space: one execution = one (context skeleton {top, struct field, slice element, behind pointer, struct in slice, pointer to struct, nested struct}, mode, ≤2 focus units over Required × Default{none, passing, failing} × tests × NotNil × the full input alphabet {valid, missing key, nil, \"\", spaces, tab/newline, NBSP, alternative representation, present-but-falsy 0/false/zero time/\"0\", failing, uncoercible} (Parse) / {valid, zero, failing} + {nil slice, empty slice, one element} + {nil pointer} (Validate)); plus typed-map inputs with missing keys; non-trivial = deviating case; distinct = distinct (skeleton, mode, required issues, test-run counts)",
+		Rule:  "decision table through the core space: one execution = one (context skeleton {top, struct field, slice element, behind pointer, struct in slice, pointer to struct, nested struct}, mode, ≤2 focus units over Required × Default{none, passing, failing} × tests × NotNil × the full input alphabet {valid, missing key, nil, \"\", spaces, tab/newline, NBSP, alternative representation, present-but-falsy 0/false/zero time/\"0\", failing, uncoercible} (Parse) / {valid, zero, failing} + {nil slice, empty slice, one element} + {nil pointer} (Validate)); plus typed-map inputs with missing keys; plus the record Struct{s, p: Ptr(Struct{s4,i4}), q: Ptr(Int), n: Struct{s2}} with ≤2 focus units over Required × tests × {valid, missing, nil, empty, failing, uncoercible} rendered through all seven front ends (untagged and source-tagged destination), each compared with the documented semantics and with the Go-map rendering; non-trivial = deviating case; distinct = distinct (skeleton, mode, required issues, test-run counts)",
 		Floor: 50,
 		Bound: func(tier string) string { return "k=2 focus units over the full (thorough) input alphabets in both tiers, 14 context skeletons, all visit orders" },
 		Assumptions: []string{
@@ -276,6 +294,17 @@ func init() {
 				items = append(items, it)
 			}
 			items = append(items, Item{Name: "typed-maps", MaxDevs: -1, Run: c04TypedMapScenario})
+			// the same table through every front end, on the record with optional parts behind pointers:
+			// what "absent" means for JSON, form, query and environment input (a missing parameter reads as "")
+			pf := recordFieldsPtr()
+			ptrUnits := skelUnits(recordSkel(FEMap, map[string]int{shapeKey: 1}, false), 2)
+			for _, cfg := range []int{0, 2} {
+				tv := uniformTags(pf, cfg)
+				tv[shapeKey] = 1
+				for _, fs := range focusSets(ptrUnits, 2) {
+					items = append(items, Item{Name: fmt.Sprintf("front-ends/ptr-record/uniform%d/focus{%s}", cfg, strings.Join(fs, ",")), MaxDevs: -1, Run: c04FrontEnds(c14Scenario(tier, tv, fs, false, 2))})
+				}
+			}
 			return items
 		},
 	})
